@@ -65,7 +65,7 @@ def _c14_extra(tier, seed):
     return enumerate_all(tier, seed)
 
 
-_p("C14", modules=["cipher_suites"], level="proof", extra=[_c14_extra],
+_p("C14", modules=["cipher_suites", "record_protection", "quic_session_c"], level="proof", extra=[_c14_extra],
    technique="proof by exhaustion: the real split_cipher_suite evaluated on all 65 536 code points against a frozen IANA registry + independent name parser; KeyError path by VC",
    level_text="The domain is finite (2-byte code points): the real function is evaluated on all 65 536 inputs and every accepted code point must be the "
               "IANA-registered code point of its name with bulk cipher, key length, mode/AEAD-ness, tag length and hash equal to what an independent token "
@@ -103,7 +103,7 @@ UNBOUNDED_FRAMING_ASSUMPTIONS = ["list.sort(key=k) leaves a permutation of the l
                                  "history.unbounded: the callee contract of extract_*_buf is used in a set-level form (see contracts/framing_history.py for its derivation); its per-step "
                                  "history preconditions are relative to the ghost state; a direction's stream is shorter than 2^31 bytes"]
 
-_p("C06", modules=["tcp_output", "quic_output", "framing", "framing_unbounded"], level="other",
+_p("C06", modules=["tcp_output", "quic_output", "framing", "framing_unbounded", "main_run"], level="other",
    technique="contract-based deductive verification (pyvc: loop invariants incl. nonlinear split arithmetic, callee contracts) + one bounded stand-in",
    level_text="Proved without bound on the real bodies: build_ack_handshake (SYN/SYN-ACK/ACK, seq 0/0/1, orientation, IPv4 and IPv6); build_server_packet / "
               "build_client_packet for symbolic record length n and symbolic number k of carrying packets (two loop invariants: the parts tile decrypted[0:n), "
@@ -125,7 +125,7 @@ _p("C06", modules=["tcp_output", "quic_output", "framing", "framing_unbounded"],
    composition_assumptions=["concatenating per-record frame groups whose first sequence number equals 1 + bytes sent before yields gap-free, non-overlapping sequence space per direction"],
    not_under_contract=["main.run writer loop (bytes(buf), ts) -> dpkt (covered by the run() contracts of C18/C11 when built)"])
 
-_p("C07", modules=["tcp_output", "quic_output", "framing", "framing_unbounded", "ports"], level="other",
+_p("C07", modules=["tcp_output", "quic_output", "framing", "framing_unbounded", "ports", "robustness"], level="other",
    technique="contract-based deductive verification (pyvc) + one bounded stand-in",
    level_text="Proved on the real bodies: every frame the TLS builder emits is oriented sender->receiver with the session's MACs, IPs (IP version as the session's) and "
               "ports, the client port unchanged (tcp_out.* orientation clauses, all 22 scapy constructions); data frame j of a record carries the timestamp of the j-th packet "
@@ -140,7 +140,7 @@ _p("C07", modules=["tcp_output", "quic_output", "framing", "framing_unbounded", 
    trusted_base=["scapy layer constructors", "dpkt readers/writers (timestamp resolution)"], bounded=BOUNDED_FRAMING,
    not_under_contract=["dpkt_dsb.Reader timestamp arithmetic (C12)"])
 
-_p("C05", modules=["framing", "framing_unbounded", "framing_history", "main_run"], level="other",
+_p("C05", modules=["framing", "framing_unbounded", "framing_history", "main_run", "prefix"], level="other",
    technique="contract-based deductive verification: unbounded loop contract (four invariants, two variants, quantifier-free VCs over spec-function lists) for the framing "
              "functions + unbounded dedupe contract; the capture-order history is a bounded stand-in",
    level_text="UNBOUNDED (any number of buffered segments, any payloads, any number of records): extract_server_buf / extract_client_buf release records iff the sorted buffer is one "
@@ -181,7 +181,7 @@ _p("C09", modules=["keylog", "keylog_unbounded", "main_run", "demux", "container
    bounded=[{"function": "keylog_reader.get_keys_from_string with CPython's real str.replace / str.split (keylog.file_text)", "bound": "<= 3 lines of key-log text", "counted_as": "bounded cross-check; the loop itself is discharged without bound by keylog.unbounded.*"}],
    not_under_contract=["dpkt_dsb.Reader / DecryptionSecretBlock.unpack (DSB position and byte order)", "dpkt_dsb.DecryptionSecretBlock.unpack field decoding (dpkt's Packet.unpack assumed)"])
 
-_p("C18", modules=["main_run", "demux", "keylog"], level="other",
+_p("C18", modules=["main_run", "demux", "keylog", "keylog_unbounded"], level="other",
    technique="contract-based deductive verification of run() against recorder contracts + syntactic frame obligations",
    level_text="Determinism of sequential Python is the absence of a few things, each proved as an obligation: run() resets every module-level list before use (state of an earlier run "
               "cannot reach this one); run() opens exactly the input and output file and reads a key-log file iff -s is given (no cwd-relative defaults for -s); every (frame, ts) "
@@ -265,7 +265,7 @@ _p("C01", modules=["record_protection", "framing", "framing_unbounded", "framing
    composition_assumptions=["induction over the record sequence: the Decryptor's per-direction state equals the sender's after the same records"],
    not_under_contract=["Decryptor.inflate (compression)", "Session.handle_tls_client_hello (one slice)"])
 
-_p("C02", modules=["quic_session_c", "quic_keystate", "quic_dissector_c", "quic_tls_c", "quic_output", "demux", "quic_pkn", "keys", "quic_varint", "quic_frame"], level="other",
+_p("C02", modules=["quic_session_c", "quic_keystate", "quic_dissector_c", "quic_tls_c", "quic_output", "demux", "quic_pkn", "keys", "quic_varint", "quic_frame", "robustness"], level="other",
    technique="contract-based deductive verification of the links of the QUIC pipeline (dissector field extraction included); one bounded link",
    level_text="Links discharged on the real code: routing by connection ID / address (demux.quic_routing, any IDs incl. zero-length); header-protection removal and packet-number "
               "reconstruction (C16); keys (C15: Initial once and for all, handshake/0-RTT/1-RTT, key update generations); decrypt_packet opens each packet with the decryptor "
@@ -325,3 +325,5 @@ _p("C12", modules=["container", "main_run"], level="other",
    trusted_base=["dpkt.pcapng block classes", "dpkt.pcap.Reader"],
    bounded=[{"function": "tlexport.dpkt_dsb.Reader.__init__/__iter__, DecryptionSecretBlock.unpack", "bound": "1 section, 1 interface, <= 2 + 3 further blocks", "counted_as": "bounded"}],
    not_under_contract=["dpkt.pcap.Reader", "Reader.dispatch/loop/readpkts (unused by run)"])
+
+from . import common  # noqa: E402,F401  (registers the real-constructor completers for ctx.obj)
